@@ -2,7 +2,7 @@ SPECIFICATION TSpec
 CONSTANTS
   Vals = {0}
   Ramps = {0}
-  Shapes = {"ramp", "speed", "none"}
+  Shapes = {"ramp", "speed", "none", "writable", "readable"}
   Jitters = {0}
 CONSTRAINT Track
 INVARIANT Done
